@@ -28,6 +28,11 @@ func (s *String) read(n int) []byte {
 		return nil
 	}
 	v := (*s)[:n]
+	if v == nil {
+		// n is 0 and *s is nil: reading nothing succeeds, as it does on
+		// an empty non-nil String; nil is reserved for failure.
+		v = []byte{}
+	}
 	*s = (*s)[n:]
 	return v
 }
